@@ -2,7 +2,7 @@
    1. ser_is_valid            every tree, every flag word without COLOR: the output is the rendering of an
                               RFC 8259 syntax tree (SerSpec) whose value is exactly the tree
    2. color_only_escapes      COLOR only inserts colour sequences
-   3. flags_only_whitespace   stated in full, refuted for NOZERO (nozero_refuted), proved under the guard
+   3. flags_only_whitespace   all 64 flag words (full strength since json-c commit c53b19e; the old NOZERO scan: nozero_old_scan_eats_exponent)
    4. roundtrip               through the tokener model: scalars proved, containers by computation *)
 From JC Require Import Base BaseLemmas Value SerModel SerSpec.
 Local Open Scope Z_scope.
@@ -342,12 +342,32 @@ Lemma render_num_eq neg i f e :
   render_num (mknum neg i f e) = ((if neg then [45] else []) ++ i) ++ render_frac f ++ render_exp e.
 Proof. unfold render_num. cbn [n_neg n_int n_frac n_exp]. rewrite app_assoc. reflexivity. Qed.
 
+(* the NOZERO scan stops at the exponent: it trims the fraction and keeps the exponent verbatim *)
+Lemma split_exp_frac fr e : forallb digit fr = true -> split_exp (fr ++ render_exp e) = (fr, render_exp e).
+Proof.
+  intros Hfr. induction fr as [|c fr IH].
+  - destruct e as [[[up sg] ds]|]; [|reflexivity]. cbn [app render_exp split_exp]. destruct up; reflexivity.
+  - cbn [forallb] in Hfr. apply andb_true_iff in Hfr. destruct Hfr as [Hc Hfr].
+    cbn [app split_exp]. unfold digit in Hc. replace ((c =? 101) || (c =? 69)) with false by lia.
+    rewrite (IH Hfr). reflexivity.
+Qed.
+Lemma nozero_keeps_exponent fr e : forallb digit fr = true ->
+  nozero_trim (fr ++ render_exp e) = trim_zeros fr ++ render_exp e.
+Proof. intros Hfr. unfold nozero_trim, nozero_trim_with, nozero_span. rewrite (split_exp_frac fr e Hfr). reflexivity. Qed.
+
+(* the scan as it was before json-c commit c53b19e (it ran to the end of the buffer): the text
+   5e+20 behind the decimal point of 1.5e+20 lost the last digit of its exponent — class nozero_eats_exponent *)
+Lemma nozero_old_scan_eats_exponent :
+  nozero_trim_with (fun rest => (rest, [])) [53;101;43;50;48] = [53;101;43;50] /\
+  nozero_trim [53;101;43;50;48] = [53;101;43;50;48].
+Proof. split; reflexivity. Qed.
+
 Lemma double_fixup_shape fl n0 :
-  g17_shape n0 -> (nozero fl = false \/ has_byte 101 (render_num n0) = false) ->
+  g17_shape n0 ->
   exists n', num_ok n' = true /\ render_num n' = double_fixup fl (render_num n0) /\
              dec_eq (num_val n') (num_val n0) /\ (n_frac n' <> None \/ n_exp n' <> None).
 Proof.
-  intros (Hok & Hup & Hlen & _) Hnz. destruct n0 as [neg i f e]. cbn [n_exp] in Hup.
+  intros (Hok & Hup & Hlen & _). destruct n0 as [neg i f e]. cbn [n_exp] in Hup.
   pose proof Hok as Hok'. apply num_ok_iff in Hok'. destruct Hok' as (O1 & O2 & O3 & O4).
   destruct (digits1_forall _ O1) as [Hi Hine].
   rewrite render_num_eq in *. set (sg := if neg then [45] else [] : list byte) in *.
@@ -375,27 +395,25 @@ Proof.
     change ((46 :: fr) ++ render_exp e) with (46 :: fr ++ render_exp e) in *.
     rewrite (split_at_first 46 (sg ++ i) (fr ++ render_exp e)) by (apply Hsg; [reflexivity|lia]).
     destruct (nozero fl) eqn:Enz.
-    + (* NOZERO: the guard says there is no exponent *)
-      destruct Hnz as [Hnz|Hnz]; [discriminate|].
-      rewrite !has_byte_app in Hnz. cbn [has_byte] in Hnz. rewrite has_byte_app, He101 in Hnz.
-      destruct e as [e'|]; [rewrite !orb_true_r in Hnz; discriminate|].
-      cbn [render_exp] in *. rewrite app_nil_r in *.
-      unfold nozero_trim, nozero_trim_with, nozero_span. rewrite app_nil_r.
+    + (* NOZERO: the fraction is trimmed, the exponent stays *)
+      rewrite (nozero_keeps_exponent fr e Hfd).
       destruct (trim_zeros_spec fr Hfd Hfne) as (k & Hk & Htne & Htd).
-      exists (mknum neg i (Some (trim_zeros fr)) None). split; [|split; [|split; [|left; discriminate]]].
+      exists (mknum neg i (Some (trim_zeros fr)) e). split; [|split; [|split; [|left; discriminate]]].
       * apply num_ok_iff. repeat split; auto. apply digits1_intro; assumption.
-      * rewrite render_num_eq. fold sg. cbn [render_frac render_exp]. rewrite app_nil_r.
-        cbv zeta. set (t := (sg ++ i) ++ 46 :: trim_zeros fr).
+      * rewrite render_num_eq. fold sg. cbn [render_frac].
+        change ((46 :: trim_zeros fr) ++ render_exp e) with (46 :: trim_zeros fr ++ render_exp e).
+        cbv zeta. set (t := (sg ++ i) ++ 46 :: trim_zeros fr ++ render_exp e).
         assert (Ht : zlen t < 128).
-        { subst t. rewrite Hk in Hlen. rewrite !zlen_app in *. cbn [zlen] in *. rewrite ?zlen_app in Hlen.
+        { subst t. rewrite Hk in Hlen. rewrite !zlen_app in *. cbn [zlen] in *. rewrite ?zlen_app in *.
           pose proof (zlen_nonneg (repeat 48 k)). lia. }
         replace (zlen t >=? 128) with false by lia. cbv iota. symmetry. apply zfirstn_all. lia.
       * unfold dec_eq, num_val. cbn [fst snd n_neg n_int n_frac n_exp].
-        remember (trim_zeros fr) as T eqn:HT. clear HT Hlen Hnz O3 Hfd Hfne. subst fr.
+        set (ex := match e with Some (_, EMinus, ds) => - digits_value ds | Some (_, _, ds) => digits_value ds | None => 0 end).
+        remember (trim_zeros fr) as T eqn:HT. clear HT Hlen O3 Hfd Hfne. subst fr.
         rewrite (app_assoc i T), (digits_value_app (i ++ T)), digits_value_zeros, zlen_app, !zlen_repeat.
         set (m := digits_value (i ++ T)). set (L := zlen T).
-        replace (Z.min (0 - L) (0 - (L + Z.of_nat k))) with (0 - (L + Z.of_nat k)) by lia.
-        replace (0 - L - (0 - (L + Z.of_nat k))) with (Z.of_nat k) by lia.
+        replace (Z.min (ex - L) (ex - (L + Z.of_nat k))) with (ex - (L + Z.of_nat k)) by lia.
+        replace (ex - L - (ex - (L + Z.of_nat k))) with (Z.of_nat k) by lia.
         rewrite Z.sub_diag, Z.pow_0_r. destruct neg; lia.
     + exists (mknum neg i (Some fr) e). split; [exact Hok|]. split; [|split; [apply dec_eq_refl|left; discriminate]].
       rewrite render_num_eq. reflexivity.
@@ -584,15 +602,14 @@ Definition fmt17_ok : Prop :=
 
 (* what a node must satisfy for the property to speak about it:
    strings and member names are byte strings; a uint64 node is not negative;
-   a double printed through %.17g is finite (NaN / Infinity are not JSON) and, with
-   NOZERO, its %.17g text has no exponent (the guard of the refuted part);
+   a double printed through %.17g is finite (NaN / Infinity are not JSON);
    a retained text (json_object_new_double_s, parser) is an RFC 8259 number token *)
-Definition node_ok (fl : sflags) (v : jv) : Prop :=
+Definition node_ok (v : jv) : Prop :=
   match v with
   | JUint z => 0 <= z
   | JStr s => Forall byte_ok s
   | JObj l => Forall (fun kv => Forall byte_ok (fst kv)) l
-  | JDouble bits None => dbl_finite bits = true /\ (nozero fl = false \/ has_byte 101 (fmt17 bits) = false)
+  | JDouble bits None => dbl_finite bits = true
   | JDouble bits (Some t) => exists n, num_ok n = true /\ render_num n = c_str t
   | _ => True
   end.
@@ -627,7 +644,7 @@ Definition valid_for (fl : sflags) (level : nat) (v : jv) : Prop :=
   exists s, stx_ok s = true /\ render s = serialize fmt17 fl level v /\ denotes (value s) v.
 
 Lemma ser_valid_rec (Hfmt : fmt17_ok) fl : color fl = false ->
-  forall v, jv_Forall (node_ok fl) v -> forall level, valid_for fl level v.
+  forall v, jv_Forall node_ok v -> forall level, valid_for fl level v.
 Proof.
   intros Hc. induction v using jv_ind'; intros G level; pose proof (jv_Forall_here _ _ G) as Hn; cbn [node_ok] in Hn.
   - exists SNull. repeat split. constructor.
@@ -640,8 +657,8 @@ Proof.
   - destruct t as [t|].
     + destruct Hn as (n & H1 & H2). exists (SNum n). cbn [stx_ok render value serialize]. repeat split; auto.
       apply (DDblText _ _ _ _ n); auto. destruct (num_val n). apply dec_eq_refl.
-    + destruct Hn as (Hfin & Hnz). destruct (Hfmt b Hfin) as (n0 & Hshape & Hr).
-      rewrite <- Hr in Hnz. destruct (double_fixup_shape fl n0 Hshape Hnz) as (n' & H1 & H2 & H3 & _).
+    + rename Hn into Hfin. destruct (Hfmt b Hfin) as (n0 & Hshape & Hr).
+      destruct (double_fixup_shape fl n0 Hshape) as (n' & H1 & H2 & H3 & _).
       exists (SNum n'). cbn [stx_ok render value serialize]. rewrite double_text_finite by exact Hfin.
       rewrite <- Hr. repeat split; auto. apply (DDbl _ _ _ n0); [apply Hshape|exact Hr|].
       destruct (num_val n'). exact H3.
@@ -716,11 +733,11 @@ Qed.
 
 (* C02, first sentence.  For every tree and every flag word without COLOR: RFC 8259 text that
    denotes exactly the tree (no surrounding whitespace). *)
-Theorem ser_is_valid (Hfmt : fmt17_ok) fl v : color fl = false -> jv_Forall (node_ok fl) v ->
+Theorem ser_is_valid (Hfmt : fmt17_ok) fl v : color fl = false -> jv_Forall node_ok v ->
   exists s, stx_ok s = true /\ render s = serialize fmt17 fl 0 v /\ denotes (value s) v.
 Proof. intros Hc G. exact (ser_valid_rec Hfmt fl Hc v G 0%nat). Qed.
 
-Corollary ser_is_rfc8259 (Hfmt : fmt17_ok) fl v : color fl = false -> jv_Forall (node_ok fl) v ->
+Corollary ser_is_rfc8259 (Hfmt : fmt17_ok) fl v : color fl = false -> jv_Forall node_ok v ->
   rfc8259_text (serialize fmt17 fl 0 v).
 Proof.
   intros Hc G. destruct (ser_is_valid Hfmt fl v Hc G) as (s & H1 & H2 & _).
@@ -854,26 +871,21 @@ Proof.
     + cbn [app]. apply split_at_none. rewrite has_byte_app, (Hsg 46), (Hex 46) by (reflexivity || lia). reflexivity.
 Qed.
 
-(* NOZERO changes nothing on a %.17g text without exponent (and is not consulted otherwise) *)
+(* NOZERO changes nothing on a %.17g text: its fraction does not end in 0 and its exponent is kept *)
 Lemma double_fixup_flags fl n0 :
-  g17_shape n0 -> (nozero fl = false \/ has_byte 101 (render_num n0) = false) ->
-  double_fixup fl (render_num n0) = double_fixup flags_plain (render_num n0).
+  g17_shape n0 -> double_fixup fl (render_num n0) = double_fixup flags_plain (render_num n0).
 Proof.
-  intros (Hok & Hup & Hlen & Hg) Hnz. destruct n0 as [neg i f e]. cbn [n_exp n_frac] in Hup, Hg.
+  intros (Hok & Hup & Hlen & Hg). destruct n0 as [neg i f e]. cbn [n_exp n_frac] in Hup, Hg.
   destruct (render_num_split neg i f e Hok) as [H44 H46].
   unfold double_fixup. rewrite !double_fixup_eq by assumption. rewrite H46.
   destruct f as [fr|]; [|reflexivity]. cbn [nozero flags_plain].
   destruct (nozero fl) eqn:Enz; [|reflexivity].
-  destruct Hnz as [Hnz|Hnz]; [discriminate|].
   pose proof Hok as Hok'. apply num_ok_iff in Hok'. destruct Hok' as (O1 & O2 & O3 & O4).
-  assert (He : e = None).
-  { rewrite render_num_eq, !has_byte_app in Hnz.
-    rewrite (has101_exp e Hup) in Hnz by (destruct e as [[[? ?] ?]|]; [exact O4|exact I]).
-    destruct e; [rewrite !orb_true_r in Hnz; discriminate|reflexivity]. }
-  subst e. cbn [render_exp]. rewrite app_nil_r.
-  unfold nozero_trim, nozero_trim_with, nozero_span. rewrite app_nil_r, (trim_zeros_id fr Hg).
-  cbv zeta. rewrite render_num_eq in *. cbn [render_frac render_exp] in *. rewrite app_nil_r in *.
-  replace (zlen (((if neg then [45] else []) ++ i) ++ 46 :: fr) >=? 128) with false by lia.
+  destruct (digits1_forall _ O3) as [Hfd _].
+  rewrite (nozero_keeps_exponent fr e Hfd), (trim_zeros_id fr Hg).
+  cbv zeta. rewrite render_num_eq in *. cbn [render_frac] in *.
+  change ((46 :: fr) ++ render_exp e) with (46 :: fr ++ render_exp e) in *.
+  replace (zlen (((if neg then [45] else []) ++ i) ++ 46 :: fr ++ render_exp e) >=? 128) with false by lia.
   cbv iota. apply zfirstn_all. lia.
 Qed.
 
@@ -881,8 +893,6 @@ Section Flags.
 Variable fmt17 : Z -> list byte.
 Hypothesis Hfmt : fmt17_ok fmt17.
 
-Lemma node_ok_plain fl v : node_ok fmt17 fl v -> node_ok fmt17 flags_plain v.
-Proof. destruct v as [| | | |b [t|]| | |]; cbn; try tauto. all: intros [H _]; split; [exact H|left; reflexivity]. Qed.
 Lemma jv_Forall_impl (P Q : jv -> Prop) : (forall v, P v -> Q v) -> forall v, jv_Forall P v -> jv_Forall Q v.
 Proof.
   intros HPQ. induction v using jv_ind'; cbn [jv_Forall]; intros [Hh Ht]; (split; [apply HPQ; exact Hh|]); try exact I.
@@ -890,14 +900,13 @@ Proof.
   - clear Hh. induction H as [|x r Hx _ IH]; [exact I|]. destruct Ht as [T1 T2]. split; [apply Hx; exact T1|apply IH; exact T2].
 Qed.
 
-Lemma double_sig fl bits : node_ok fmt17 fl (JDouble bits None) ->
+Lemma double_sig fl bits : node_ok (JDouble bits None) ->
   sig_run LOut (double_text fmt17 fl bits) = (LOut, double_text fmt17 cfl bits).
 Proof.
-  intros (Hfin & Hnz). rewrite !double_text_finite by exact Hfin.
+  intros Hfin. cbn [node_ok] in Hfin. rewrite !double_text_finite by exact Hfin.
   destruct (Hfmt bits Hfin) as (n0 & Hshape & Hr). rewrite <- Hr in *.
-  rewrite (double_fixup_flags fl n0 Hshape Hnz).
-  rewrite (double_fixup_flags cfl n0 Hshape) by (left; reflexivity).
-  destruct (double_fixup_shape flags_plain n0 Hshape) as (n' & H1 & H2 & _ & _); [left; reflexivity|].
+  rewrite (double_fixup_flags fl n0 Hshape), (double_fixup_flags cfl n0 Hshape).
+  destruct (double_fixup_shape flags_plain n0 Hshape) as (n' & H1 & H2 & _ & _).
   rewrite <- H2. apply sig_plain, num_plain, H1.
 Qed.
 
@@ -925,15 +934,15 @@ Proof.
 Qed.
 
 Lemma child_sig fl x level level' :
-  (jv_Forall (node_ok fmt17 fl) x -> forall l l', sig_run LOut (serialize fmt17 fl l x) = (LOut, serialize fmt17 cfl l' x)) ->
-  jv_Forall (node_ok fmt17 fl) x ->
+  (jv_Forall node_ok x -> forall l l', sig_run LOut (serialize fmt17 fl l x) = (LOut, serialize fmt17 cfl l' x)) ->
+  jv_Forall node_ok x ->
   sig_run LOut (child_text fl (serialize fmt17 fl level) x) = (LOut, child_text cfl (serialize fmt17 cfl level') x).
 Proof.
   intros Hrec G. destruct x; cbn [child_text]; try (apply Hrec; exact G).
   apply colored_sig; [cbn; tauto|reflexivity].
 Qed.
 
-Lemma ser_sig fl : forall v, jv_Forall (node_ok fmt17 fl) v -> forall level level',
+Lemma ser_sig fl : forall v, jv_Forall node_ok v -> forall level level',
   sig_run LOut (serialize fmt17 fl level v) = (LOut, serialize fmt17 cfl level' v).
 Proof.
   induction v using jv_ind'; intros G level level'; pose proof (jv_Forall_here _ _ G) as Hn; cbn [node_ok] in Hn.
@@ -970,80 +979,42 @@ Proof.
       apply close_sig. reflexivity.
 Qed.
 
-(* C02, second sentence, under the guard: formatting flags (all 64 words, COLOR included)
-   change only insignificant whitespace, colour sequences and the escape form of the solidus.
-   Guard (inside [node_ok]): NOZERO is off, or no %.17g text in the tree has an exponent. *)
-Theorem flags_only_whitespace_partial fl v : jv_Forall (node_ok fmt17 fl) v ->
+(* C02, second sentence, at full strength: formatting flags (all 64 words, NOZERO and COLOR
+   included) change only insignificant whitespace, colour sequences and the escape form of
+   the solidus. *)
+Theorem flags_only_whitespace fl v : jv_Forall node_ok v ->
   significant (serialize fmt17 fl 0 v) = significant (serialize fmt17 flags_plain 0 v).
 Proof.
-  intros G. unfold significant. rewrite (ser_sig fl v G 0%nat 0%nat).
-  rewrite (ser_sig flags_plain v (jv_Forall_impl _ _ (node_ok_plain fl) v G) 0%nat 0%nat). reflexivity.
+  intros G. unfold significant. rewrite (ser_sig fl v G 0%nat 0%nat), (ser_sig flags_plain v G 0%nat 0%nat). reflexivity.
 Qed.
 
 End Flags.
 
-(* the full statement (no NOZERO guard) *)
-Definition flags_only_whitespace : Prop :=
-  forall fmt17, fmt17_ok fmt17 -> forall fl v,
-    jv_Forall (node_ok fmt17 (mkfl (spaced fl) (pretty fl) false (pretty_tab fl) (noslash fl) (color fl))) v ->
-    significant (serialize fmt17 fl 0 v) = significant (serialize fmt17 flags_plain 0 v).
-
-(* ... is refuted by the code as written.  Class "nozero_eats_exponent": the double 1.5e+20
-   (bits 0x442043561A882930), whose %.17g text is 1.5e+20, is printed as 1.5e+2 under
-   JSON_C_TO_STRING_NOZERO — a valid JSON number whose value is 150. *)
-Definition w_bits : Z := 4908497940830202160.                               (* 0x442043561A882930 *)
+(* non-vacuity on the two doubles that the scan before commit c53b19e spoiled: with an oracle that
+   prints 1.5e+20 and 2.5000000000000002e-10 as libc does, the text under JSON_C_TO_STRING_NOZERO is the
+   %.17g text, exponent intact *)
+Definition w_bits : Z := 4908497940830202160.                               (* 0x442043561A882930 = 1.5e+20 *)
 Definition w_text : list byte := [49;46;53;101;43;50;48].                    (* 1.5e+20 *)
-Definition w_fmt17 : Z -> list byte := fun _ => w_text.
 Definition w_tok : numtok := mknum false [49] (Some [53]) (Some (false, EPlus, [50;48])).
+Definition w2_bits : Z := 4457293557087583675.                              (* 0x3DF12E0BE826D69B = 2.5e-10 *)
+Definition w2_text : list byte := [50;46;53;48;48;48;48;48;48;48;48;48;48;48;48;48;48;50;101;45;49;48].   (* 2.5000000000000002e-10 *)
+Definition w2_tok : numtok := mknum false [50] (Some [53;48;48;48;48;48;48;48;48;48;48;48;48;48;48;50]) (Some (false, EMinus, [49;48])).
+Definition w_fmt17 : Z -> list byte := fun bits => if bits =? w2_bits then w2_text else w_text.
 Definition w_flags : sflags := mkfl false false true false false false.     (* JSON_C_TO_STRING_NOZERO *)
 
 Lemma w_fmt17_ok : fmt17_ok w_fmt17.
 Proof.
-  intros bits _. exists w_tok. split; [|reflexivity].
-  repeat split; try reflexivity; cbn; lia.
+  intros bits _. unfold w_fmt17. destruct (bits =? w2_bits).
+  - exists w2_tok. split; [|reflexivity]. repeat split; try reflexivity; cbn; lia.
+  - exists w_tok. split; [|reflexivity]. repeat split; try reflexivity; cbn; lia.
 Qed.
 
-Theorem nozero_refuted : ~ flags_only_whitespace.
-Proof.
-  intros H. specialize (H w_fmt17 w_fmt17_ok w_flags (JDouble w_bits None)).
-  assert (G : jv_Forall (node_ok w_fmt17 (mkfl false false false false false false)) (JDouble w_bits None)).
-  { cbn. repeat split. left. reflexivity. }
-  specialize (H G). vm_compute in H. discriminate.
-Qed.
-
-(* the same witness against "denotes exactly the tree": the text under NOZERO is the token
-   1.5e+2, whose exact value differs from that of the %.17g text *)
-Theorem nozero_value_refuted :
-  serialize w_fmt17 w_flags 0 (JDouble w_bits None) = [49;46;53;101;43;50] /\
-  serialize w_fmt17 flags_plain 0 (JDouble w_bits None) = w_text /\
-  exists n, num_ok n = true /\ render_num n = serialize w_fmt17 w_flags 0 (JDouble w_bits None) /\
-            ~ dec_eq (num_val n) (num_val w_tok).
-Proof.
-  split; [vm_compute; reflexivity|]. split; [vm_compute; reflexivity|].
-  exists (mknum false [49] (Some [53]) (Some (false, EPlus, [50]))). split; [reflexivity|]. split; [vm_compute; reflexivity|].
-  unfold dec_eq. vm_compute. discriminate.
-Qed.
-
-(* the repaired scan (stop at the exponent): nozero_span := split_exp.  With it the trimming
-   never touches an exponent: the text keeps its exponent part verbatim *)
-Lemma split_exp_app l : fst (split_exp l) ++ snd (split_exp l) = l.
-Proof.
-  induction l as [|x r IH]; [reflexivity|]. cbn [split_exp]. destruct ((x =? 101) || (x =? 69)); [reflexivity|].
-  destruct (split_exp r) as [a b]. cbn [fst snd app] in *. rewrite IH. reflexivity.
-Qed.
-Theorem nozero_repaired_keeps_exponent fr e :
-  forallb digit fr = true -> exp_ok e = true ->
-  nozero_trim_with split_exp (fr ++ render_exp e) = trim_zeros fr ++ render_exp e.
-Proof.
-  intros Hfr He. unfold nozero_trim_with.
-  assert (H : split_exp (fr ++ render_exp e) = (fr, render_exp e)).
-  { induction fr as [|c fr IH].
-    - destruct e as [[[up sg] ds]|]; [|reflexivity]. cbn [app render_exp split_exp]. destruct up; reflexivity.
-    - cbn [forallb] in Hfr. apply andb_true_iff in Hfr. destruct Hfr as [Hc Hfr].
-      cbn [app split_exp]. unfold digit in Hc. replace ((c =? 101) || (c =? 69)) with false by lia.
-      rewrite (IH Hfr). reflexivity. }
-  rewrite H. reflexivity.
-Qed.
+Lemma nozero_examples :
+  serialize w_fmt17 w_flags 0 (JDouble w_bits None) = w_text /\
+  serialize w_fmt17 w_flags 0 (JDouble w2_bits None) = w2_text /\
+  significant (serialize w_fmt17 w_flags 0 (JArr [JDouble w_bits None; JDouble w2_bits None]))
+  = significant (serialize w_fmt17 flags_plain 0 (JArr [JDouble w_bits None; JDouble w2_bits None])).
+Proof. repeat split; vm_compute; reflexivity. Qed.
 
 (* ------------------------------------------------------------------ round trip through the tokener model *)
 From JC Require TokModel EqModel.
@@ -1728,20 +1699,19 @@ Lemma reparse_intro text v t' :
   reparse strtod text = Some v.
 Proof. intros H1 H2. unfold reparse. change (TokModel.tok_new 32 false false false) with (Some RT.T0). cbv beta iota. rewrite H1, H2. reflexivity. Qed.
 
-(* the trees covered: a scalar, with its C range.  For a double: finite, the NOZERO guard, and the
+(* the trees covered: a scalar, with its C range.  For a double: finite, and the
    hypothesis on the strtod oracle that it reads the emitted token back as the double (what
    [double_reads_back] reduces to the 17-digit round trip); a retained text must be a number
    token with a fraction or an exponent (else json-c re-parses it as an integer node) that
    strtod reads as the double *)
-Definition scalar_ok (fl : sflags) (v : jv) : Prop :=
+Definition scalar_ok (v : jv) : Prop :=
   match v with
   | JNull | JBool _ => True
   | JInt z => INT64_MIN <= z <= INT64_MAX
   | JUint z => 0 <= z <= UINT64_MAX
   | JStr s => Forall byte_ok s
   | JDouble bits None =>
-      dbl_finite bits = true /\ (nozero fl = false \/ has_byte 101 (fmt17 bits) = false) /\
-      strtod (double_fixup flags_plain (fmt17 bits)) = bits
+      dbl_finite bits = true /\ strtod (double_fixup flags_plain (fmt17 bits)) = bits
   | JDouble bits (Some t) =>
       dbl_finite bits = true /\
       exists n, num_ok n = true /\ render_num n = c_str t /\ (n_frac n <> None \/ n_exp n <> None) /\ strtod (c_str t) = bits
@@ -1753,7 +1723,7 @@ Definition scalar_ok (fl : sflags) (v : jv) : Prop :=
    all finite doubles (under the oracle hypotheses).  Containers are not proved here: see
    [roundtrip_examples] and the correspondence stream. *)
 Theorem roundtrip_scalars_partial (Hfmt : fmt17_ok fmt17) fl v :
-  color fl = false -> scalar_ok fl v -> roundtrip_ok fmt17 strtod fl v.
+  color fl = false -> scalar_ok v -> roundtrip_ok fmt17 strtod fl v.
 Proof.
   intros Hc Hv. destruct v as [|b|z|z|bits t|s|l|l]; cbn [scalar_ok] in Hv; try contradiction.
   - exists JNull. split; [vm_compute; reflexivity|split; reflexivity].
@@ -1778,10 +1748,10 @@ Proof.
       * apply (reparse_intro _ _ t'); assumption.
       * cbn [EqModel.jv_equal]. apply dval_eqb_finite, Hfin.
       * apply c_str_clean. rewrite <- Hr. apply RT2.num_no_nul, Hok.
-    + destruct Hv as (Hfin & Hnz & Hs). destruct (Hfmt bits Hfin) as (n0 & Hshape & Hr0).
+    + destruct Hv as (Hfin & Hs). destruct (Hfmt bits Hfin) as (n0 & Hshape & Hr0).
       unfold roundtrip_ok. cbn [serialize]. rewrite double_text_finite by exact Hfin. rewrite <- Hr0 in *.
-      rewrite (double_fixup_flags fl n0 Hshape Hnz).
-      destruct (double_fixup_shape flags_plain n0 Hshape) as (n' & Hok & Hr & _ & Hd); [left; reflexivity|].
+      rewrite (double_fixup_flags fl n0 Hshape).
+      destruct (double_fixup_shape flags_plain n0 Hshape) as (n' & Hok & Hr & _ & Hd).
       rewrite <- Hr in *.
       destruct (RT2.parse_num_token strtod n' Hok Hd) as (t' & H1 & H2). rewrite Hs in H1.
       exists (JDouble bits (Some (render_num n'))). split; [|split].
@@ -1826,17 +1796,12 @@ Definition ex_tree : jv :=
         JObj [([107;47], JArr [JArr []; JObj []]); ([], JObj [([120], JDouble 4908497940830202160 None)])];
         JUint 7].
 
-(* all 16 flag words over SPACED, PRETTY, PRETTY_TAB, NOSLASHESCAPE (NOZERO off, COLOR off) *)
+(* all 32 flag words without COLOR *)
 Definition ex_flags : list sflags :=
-  flat_map (fun sp => flat_map (fun pr => flat_map (fun tb => map (fun ns => mkfl sp pr false tb ns false) [false; true])
-                                                    [false; true]) [false; true]) [false; true].
+  flat_map (fun sp => flat_map (fun pr => flat_map (fun nz => flat_map (fun tb => map (fun ns => mkfl sp pr nz tb ns false) [false; true])
+                                                    [false; true]) [false; true]) [false; true]) [false; true].
 
 Lemma roundtrip_examples : forallb (fun fl => roundtrip_okb ex_fmt17 ex_strtod fl ex_tree) ex_flags = true.
-Proof. vm_compute. reflexivity. Qed.
-
-(* and the same tree under NOZERO: the round trip is lost on 1.5e+20 *)
-Lemma roundtrip_nozero_example :
-  roundtrip_okb ex_fmt17 ex_strtod (mkfl false false true false false false) ex_tree = false.
 Proof. vm_compute. reflexivity. Qed.
 
 (* the full round-trip statement, for the record (not proved beyond the parts above) *)
@@ -1844,9 +1809,9 @@ Definition roundtrip_statement : Prop :=
   forall fmt17 strtod, fmt17_ok fmt17 ->
     (forall bits n, dbl_finite bits = true -> num_ok n = true -> render_num n = double_fixup flags_plain (fmt17 bits) ->
                     strtod (render_num n) = bits) ->
-    forall fl v, color fl = false -> jv_Forall (node_ok fmt17 fl) v -> roundtrip_ok fmt17 strtod fl v.
+    forall fl v, color fl = false -> jv_Forall node_ok v -> roundtrip_ok fmt17 strtod fl v.
 
-Lemma nonvacuous : fmt17_ok w_fmt17 /\ jv_Forall (node_ok w_fmt17 flags_plain) (JArr [JDouble w_bits None; JStr [0;47;255]; JObj [([97], JNull)]]).
+Lemma nonvacuous : fmt17_ok w_fmt17 /\ jv_Forall node_ok (JArr [JDouble w_bits None; JStr [0;47;255]; JObj [([97], JNull)]]).
 Proof.
   split; [exact w_fmt17_ok|]. cbn. repeat split; try (left; reflexivity).
   - repeat constructor; unfold byte_ok; lia.
